@@ -128,6 +128,9 @@ func vfC10Run(v *vfT, c vfC10Case) {
 	if orphan {
 		v.Label("me:orphan-rtx")
 	}
+	if vfC10HasPairPrefs(c) {
+		v.Label("prefs:primary+rtx-pair")
+	}
 
 	if c.Remote != nil {
 		text := c.Remote.Render()
@@ -229,6 +232,10 @@ func vfC10Gen(v *vfT) vfC10Case {
 		}
 		c.Trx = append(c.Trx, t)
 	}
+	if rapid.IntRange(0, 3).Draw(r, "rtxPairShape") == 0 {
+		vfC10GenRTXPairShape(r, &c)
+		return c
+	}
 	if rapid.IntRange(0, 3).Draw(r, "withRemote") != 0 {
 		s := vfFamBGenSDP(r, vfFamBGenOpts{MinSec: 1, MaxSec: 4, Medias: []string{"audio", "video", "video", "application"},
 			MidStyles: []string{"numeric", "numeric", "token", "sparse"}, RemapPT: true, RemapExt: true, Unsupported: 8, SSRC: true})
@@ -236,6 +243,110 @@ func vfC10Gen(v *vfT) vfC10Case {
 		c.Fresh = rapid.IntRange(0, 2).Draw(r, "fresh") != 0
 	}
 	return c
+}
+
+// vfC10GenRTXPairShape rewrites the case into: a video transceiver whose codec preferences
+// hold a primary P with its RTX (registered payload types) plus another primary Q, set before
+// any remote description; then a sound foreign offer that omits P, offers Q and an rtx, and
+// numbers them with its own payload types - usually reusing P's number for Q.
+func vfC10GenRTXPairShape(r *rapid.T, c *vfC10Case) {
+	used := map[uint8]bool{}
+	for _, cd := range c.ME.Codecs {
+		used[cd.PT] = true
+	}
+	free := func() uint8 {
+		for pt := uint8(96); pt <= 127; pt++ {
+			if !used[pt] {
+				used[pt] = true
+				return pt
+			}
+		}
+		return 35
+	}
+	isPrimary := func(cd vfFamBMECodec) bool {
+		m := strings.ToLower(cd.Mime)
+		return cd.Kind == "video" && !strings.HasSuffix(m, "/rtx") && !strings.Contains(m, "flexfec")
+	}
+	rtxOf := func(pt uint8) int {
+		for i, cd := range c.ME.Codecs {
+			if cd.Kind == "video" && strings.EqualFold(cd.Mime, MimeTypeRTX) && cd.Fmtp == fmt.Sprintf("apt=%d", pt) {
+				return i
+			}
+		}
+		return -1
+	}
+	// P: a primary with an attached RTX; Q: another primary (both forced in when missing)
+	pi, qi := -1, -1
+	for i, cd := range c.ME.Codecs {
+		if isPrimary(cd) && rtxOf(cd.PT) >= 0 {
+			pi = i
+			break
+		}
+	}
+	if pi < 0 {
+		pt := free()
+		c.ME.Codecs = append(c.ME.Codecs,
+			vfFamBMECodec{Kind: "video", Mime: MimeTypeVP8, Clock: 90000, FB: vfFamBMEVideoFB, PT: pt},
+			vfFamBMECodec{Kind: "video", Mime: MimeTypeRTX, Clock: 90000, Fmtp: fmt.Sprintf("apt=%d", pt), PT: free()})
+		pi = len(c.ME.Codecs) - 2
+	}
+	for i, cd := range c.ME.Codecs {
+		if isPrimary(cd) && i != pi && !strings.EqualFold(cd.Mime, c.ME.Codecs[pi].Mime) {
+			qi = i
+			break
+		}
+	}
+	if qi < 0 {
+		mime, fm := MimeTypeVP9, "profile-id=0"
+		if strings.EqualFold(c.ME.Codecs[pi].Mime, MimeTypeVP9) {
+			mime, fm = MimeTypeAV1, ""
+		}
+		c.ME.Codecs = append(c.ME.Codecs, vfFamBMECodec{Kind: "video", Mime: mime, Clock: 90000, Fmtp: fm, FB: vfFamBMEVideoFB, PT: free()})
+		qi = len(c.ME.Codecs) - 1
+		if rapid.Bool().Draw(r, "qWithRTX") {
+			c.ME.Codecs = append(c.ME.Codecs, vfFamBMECodec{Kind: "video", Mime: MimeTypeRTX, Clock: 90000, Fmtp: fmt.Sprintf("apt=%d", c.ME.Codecs[qi].PT), PT: free()})
+		}
+	}
+	P, Q := c.ME.Codecs[pi], c.ME.Codecs[qi]
+	// preference list by index into the video pool (what vfFamBPref.List resolves against)
+	poolIdx := map[int]int{}
+	n := 0
+	for i, cd := range c.ME.Codecs {
+		if cd.Kind == "video" {
+			poolIdx[i] = n
+			n++
+		}
+	}
+	idx := []int{poolIdx[pi], poolIdx[rtxOf(P.PT)], poolIdx[qi]}
+	if k := rtxOf(Q.PT); k >= 0 {
+		idx = append(idx, poolIdx[k])
+	}
+	idx = rapid.Permutation(idx).Draw(r, "prefOrder")
+	pref := vfFamBPref{Idx: idx, ZeroPT: make([]bool, len(idx))}
+	first := vfC10Trx{Kind: "video", Dir: rapid.SampledFrom([]string{"recvonly", "sendrecv"}).Draw(r, "pairDir"), Prefs: &pref}
+	c.Trx = append([]vfC10Trx{first}, c.Trx...)
+	// the foreign offer: Q under the remote's number (usually P's), an rtx for it, P absent
+	qPT := int(P.PT)
+	if rapid.IntRange(0, 3).Draw(r, "noReuse") == 0 {
+		qPT = int(free())
+	}
+	rPT := int(c.ME.Codecs[rtxOf(P.PT)].PT)
+	if rapid.Bool().Draw(r, "otherRTXNumber") {
+		rPT = int(free())
+	}
+	name := strings.TrimPrefix(Q.Mime, "video/")
+	sec := vfFamBSec{Media: "video", Mid: "0", Port: 9, Setup: "actpass",
+		Dir: rapid.SampledFrom([]string{"sendonly", "sendrecv"}).Draw(r, "remoteDir"),
+		Codecs: []vfFamBCodec{
+			{PT: qPT, Name: name, Clock: int(Q.Clock), Fmtp: Q.Fmtp, FB: append([]string{}, Q.FB...)},
+			{PT: rPT, Name: "rtx", Clock: 90000, Fmtp: fmt.Sprintf("apt=%d", qPT)},
+		}}
+	if sec.Dir == "sendonly" || rapid.Bool().Draw(r, "ssrc") {
+		sec.SSRC = 1000
+	}
+	c.Remote = &vfFamBSDP{SessID: 7, SessVer: 2, Bundle: true, Ufrag: "vfUf1", Pwd: "vfFamBpasswordvfFamBpassword",
+		IceSession: rapid.Bool().Draw(r, "iceSession"), FPSession: rapid.Bool().Draw(r, "fpSession"), Sections: []vfFamBSec{sec}}
+	c.Fresh = rapid.Bool().Draw(r, "fresh")
 }
 
 func TestVerif_C10_Configs(t *testing.T) {
@@ -274,4 +385,25 @@ func TestVerif_C10_Histories(t *testing.T) {
 		}
 		vfFamBReport(v, all)
 	})
+}
+
+// vfC10HasPairPrefs reports whether some preference list holds a primary together with its RTX.
+func vfC10HasPairPrefs(c vfC10Case) bool {
+	for _, t := range c.Trx {
+		if t.Prefs == nil {
+			continue
+		}
+		l := t.Prefs.List(c.ME, t.Kind)
+		for _, x := range l {
+			if !strings.EqualFold(x.MimeType, MimeTypeRTX) {
+				continue
+			}
+			for _, y := range l {
+				if x.SDPFmtpLine == fmt.Sprintf("apt=%d", y.PayloadType) {
+					return true
+				}
+			}
+		}
+	}
+	return false
 }
